@@ -89,7 +89,7 @@ PROPS = {
         ],
     },
     "C16": {
-        "suites": ["c16", "c12"],
+        "suites": ["c16", "c12", "c12conc"],
         "assumptions": COMMON_ASSUME + [
             "the struct decoders of the model are strict (fields in writer order with the declared wire types); they accept what the Go writers produce, which is all the round-trip claim needs",
         ],
@@ -116,7 +116,7 @@ PROPS = {
         "timeout": {"quick": 400, "thorough": 3600},
     },
     "C09": {
-        "suites": ["c09", "c09sub", "c20cache", "scope-c07seq", "allocfault", "racescope"],
+        "suites": ["c09", "c09sub", "c20cache", "scope-c07seq", "allocfault", "c09rw", "racescope"],
         "assumptions": COMMON_ASSUME + [
             "data-race freedom in the sense of the Go memory model is not expressible in the interleaving model; it is supported by -race runs only",
             "a parked thread holds no lock between the read-locked probe and the write lock (tie facts)",
